@@ -38,6 +38,7 @@ class PoolSim:
         dequeue: str = "fifo",
         worker_factory: Optional[Callable[[], Any]] = None,
         task_hook: Optional[Callable[[Any], None]] = None,
+        straggler: Optional[int] = None,
     ) -> None:
         self.pick = pick
         self.log = log
@@ -46,6 +47,9 @@ class PoolSim:
         self.dequeue = dequeue
         self.worker_factory = worker_factory
         self.task_hook = task_hook
+        # "slow node" fault: the task with this submission number takes far longer than any other,
+        # i.e. its worker finishes it after everything else that worker's peers can get through
+        self.straggler = straggler
         self.clock = 0
         self.stats = {
             "pools": 0,
@@ -224,6 +228,9 @@ class _SimIter:
                     i = 0
                 no, blob = self.inbox.pop(i)
                 dur = DURATIONS[sim.pick("dur", len(DURATIONS))]
+                if sim.straggler is not None and no == sim.straggler:
+                    dur = 100000
+                    sim.stats["straggler_started"] = sim.stats.get("straggler_started", 0) + 1
                 w.busy = True
                 w.task_no = no
                 w.until = sim.clock + dur
